@@ -95,6 +95,12 @@ class NullSafety:
             return self.is_corr_expr(e.operand)
         return False
 
+    def path(self, e):
+        """normalised access path: corr[t] and corr.content[t] denote the same timeslice (Corr.__getitem__ returns None iff content[t] is None)"""
+        if isinstance(e, ast.Subscript) and isinstance(e.value, ast.Name) and e.value.id in self.corr and not isinstance(e.slice, ast.Slice):
+            return '%s.content[%s]' % (e.value.id, unparse(e.slice))
+        return unparse(e)
+
     # ------------------------------------------------------------ nullable?
     def nullable(self, e):
         if isinstance(e, ast.Name):
@@ -146,21 +152,21 @@ class NullSafety:
             a, b = self.cond(t.operand, facts)
             return b, a
         if isinstance(t, ast.Compare) and len(t.ops) == 1 and isinstance(t.comparators[0], ast.Constant) and t.comparators[0].value is None and isinstance(t.ops[0], (ast.Is, ast.IsNot)):
-            p = unparse(t.left)
+            p = self.path(t.left)
             self.expr(t.left, facts, deref=False)
             self.guard_sites += 1
             return (set(), {p}) if isinstance(t.ops[0], ast.Is) else ({p}, set())
         if isinstance(t, ast.Call) and call_name(t) == '_check_for_none' and len(t.args) == 2:
             self.guard_sites += 1
             self.expr(t.args[1], facts, deref=False)
-            return set(), {unparse(t.args[1])}
+            return set(), {self.path(t.args[1])}
         if isinstance(t, ast.Call) and call_name(t) in ('all', 'any') and len(t.args) == 1 and isinstance(t.args[0], (ast.GeneratorExp, ast.ListComp)) \
                 and isinstance(t.args[0].elt, ast.Compare) and len(t.args[0].elt.ops) == 1 and isinstance(t.args[0].elt.ops[0], (ast.Is, ast.IsNot)) \
                 and isinstance(t.args[0].elt.comparators[0], ast.Constant) and t.args[0].elt.comparators[0].value is None and not any(g.ifs for g in t.args[0].generators):
             # idiom (v): any(P is None for i in R1 for j in R2) false  ==> P defined for all (i, j);  all(P is not None ...) true ==> same.
             # The fact is only usable inside loops that bind the same variables to the same ranges (checked in need()).
             gen = t.args[0]
-            p = unparse(gen.elt.left)
+            p = self.path(gen.elt.left)
             binds = {unparse(g.target): unparse(g.iter) for g in gen.generators}
             self.expr(t, facts)
             self.guard_sites += 1
@@ -190,7 +196,7 @@ class NullSafety:
         """e is about to be dereferenced"""
         if self.nullable(e):
             self.derefs_checked += 1
-            txt = unparse(e)
+            txt = self.path(e)
             ok = txt in facts
             if ok and txt in self.qfacts:
                 ok = all(self.loopvars.get(v) == r for v, r in self.qfacts[txt].items())
